@@ -150,8 +150,9 @@ package datastore
 //@            callarg(ToStringSlice, 1, 0) == callres(GetDeletesForOwner, 0) && callarg(GetDeletesForOwner, 0, 1) == callarg(Modify, 1, 3).Owner
 // and it is removed whenever the priorities differ, whatever the new version holds (a rollback hands in intents that
 // did not exist before without content: their entries go this way)
-//@   loop 3 invariant a_former_priority_is_always_cleaned_up [C05 C02]: called(GetFirstPriorityValue, 1) && called(GetPriority, 0) &&
-//@            callres(GetFirstPriorityValue, 1) != callres(GetPriority, 0) ==> called(Modify, 0)
+//@   loop 3 invariant a_former_priority_is_always_cleaned_up [C05 C02]: called(Modify, 1) && present(oldIntentContents, callarg(Modify, 1, 3).Owner) &&
+//@            len(oldIntentContents[callarg(Modify, 1, 3).Owner]) > 0 && oldIntentContents[callarg(Modify, 1, 3).Owner][0] != nil &&
+//@            oldIntentContents[callarg(Modify, 1, 3).Owner][0].priority != callarg(Modify, 1, 3).Priority ==> called(Modify, 0)
 // what is removed there is all of the former content, whatever the new version keeps of it
 //@   loop 3 invariant all_of_the_former_version_is_removed_there [C01 C02]: called(Modify, 0) ==> callarg(Modify, 0, 4) == callres(ToStringSlice, 0) &&
 //@            callarg(ToStringSlice, 0, 0) == callres(GetPaths, 0) && callarg(GetPaths, 0, 0) == callres(ToPathSet, 2) &&
